@@ -166,6 +166,21 @@ def job_mult(t, f, L=0):
                     g.append(('multiple%d' % k, mult)); g.append(('c%d' % k, d + d <= M))
             return g
         known = {'roundMultiple': ['KF-C18-roundMultiple-floors']}.get(f, [])
+        if L > 0:
+            # vector overloads: first show component k is the very term of the scalar overload on (x_k, m_k) (hash-consed, no solver); the scalar obligation then carries the
+            # specification.  Only components for which that fails are put to the solver directly.
+            try:
+                rv_ = sym_call(U, f + sfx); same = True
+                for k in range(n):
+                    rs = sym_call(U, '%s_%s' % (f, t), ins=[[rv_.ins[0][k], rv_.ins[1][k]]])
+                    a_, b_ = rv_.outs[0][k], rs.outs[0][0]
+                    if not z3.simplify(a_).eq(z3.simplify(b_)): same = False; break
+                if same:
+                    for k in range(n):
+                        S.rec(name='c18.%s%s.c%d' % (f, sfx, k), kind='spec', functions=[f + sfx], bounds='all x, all m > 0 (%d bit)' % W, solver='identical term to the scalar overload %s_%s (z3 simplifier); specification: c18.%s_%s' % (f, t, f, t),
+                              result='unsat', time_s=0.0, status='discharged', mandatory=True)
+                    return
+            except Unsupported: pass
         S.check_fn(U, f + sfx, spec, pre, solver='portfolio', timeout=S.cap(150, 400), known=known, bounds='all x, all m > 0 with x +- m representable (%d bit)' % W, side=False)
     return run
 
